@@ -2,7 +2,10 @@ package main
 
 import (
 	"fmt"
+	"go/types"
 	"strings"
+
+	"golang.org/x/tools/go/ssa"
 )
 
 type lemmaVC struct {
@@ -25,6 +28,10 @@ func generateLemmas(P *Program) (obls []*Obligation, drift []string) {
 		obls = append(obls, os...)
 		drift = append(drift, ds...)
 	}
+	ros, rdrift, unref := refinementObligations(P)
+	obls = append(obls, ros...)
+	drift = append(drift, rdrift...)
+	P.unrefined = unref
 	return
 }
 
@@ -219,3 +226,196 @@ func tableEntryObligation(P *Program, tb *TableSpec, key, fnName string) (obls [
 }
 
 func sanitizeIdx(i int) string { return fmt.Sprintf("%d", i) }
+
+// refinementObligations: every implementation's contract must refine the interface
+// method contract that dynamic calls rely on:  iface.requires ⇒ impl.requires,
+// impl.modifies ⊆ iface.modifies,  impl.ensures ⇒ iface.ensures  (receiver boxed).
+func refinementObligations(P *Program) (obls []*Obligation, drift []string, unrefined []string) {
+	var keys []string
+	for k := range P.ifaces {
+		keys = append(keys, k)
+	}
+	sortStrings(keys)
+	for _, k := range keys {
+		ic := P.ifaces[k]
+		tp := ic.TargetPkg
+		if tp == "" {
+			tp = ic.Pkg
+		} else {
+			tp = P.resolvePkgName(tp)
+		}
+		pk := P.byPath[tp]
+		if pk == nil {
+			drift = append(drift, "iface contract "+k+": package not loaded")
+			continue
+		}
+		tn, _ := pk.Types.Scope().Lookup(ic.Recv).(*types.TypeName)
+		if tn == nil {
+			drift = append(drift, "iface contract "+k+": type not found")
+			continue
+		}
+		it, ok := tn.Type().Underlying().(*types.Interface)
+		if !ok {
+			drift = append(drift, "iface contract "+k+": not an interface")
+			continue
+		}
+		// implementations among module packages
+		var pkgPaths []string
+		for path := range P.ssaPkgs {
+			if strings.HasPrefix(path, modPath) {
+				pkgPaths = append(pkgPaths, path)
+			}
+		}
+		sortStrings(pkgPaths)
+		for _, path := range pkgPaths {
+			sp := P.ssaPkgs[path]
+			var names []string
+			for name := range sp.Members {
+				names = append(names, name)
+			}
+			sortStrings(names)
+			for _, name := range names {
+				ty, ok := sp.Members[name].(*ssa.Type)
+				if !ok {
+					continue
+				}
+				T := ty.Type()
+				if _, isIface := T.Underlying().(*types.Interface); isIface {
+					continue
+				}
+				var recvT types.Type
+				if types.Implements(T, it) {
+					recvT = T
+				} else if types.Implements(types.NewPointer(T), it) {
+					recvT = types.NewPointer(T)
+				} else {
+					continue
+				}
+				ck := path + ".(" + name + ")." + ic.Name
+				c := P.contracts[ck]
+				if c == nil {
+					unrefined = append(unrefined, fmt.Sprintf("%s.%s: implementation (%s.%s).%s has no contract; the interface contract is assumed for it", ic.Recv, ic.Name, shortPkg(path), name, ic.Name))
+					continue
+				}
+				fn := P.lookupFunc(c)
+				if fn == nil {
+					drift = append(drift, "refinement "+ck+": function not found")
+					continue
+				}
+				os, err := refineOne(P, ic, tn.Type(), c, fn, recvT)
+				if err != nil {
+					drift = append(drift, err.Error())
+					continue
+				}
+				obls = append(obls, os...)
+			}
+		}
+	}
+	return
+}
+
+func refineOne(P *Program, ic *FuncContract, ifaceT types.Type, c *FuncContract, fn *ssa.Function, recvT types.Type) (obls []*Obligation, err error) {
+	defer func() {
+		if r := recover(); r != nil {
+			if se, ok := r.(specError); ok {
+				err = fmt.Errorf("refinement %s ⊑ %s.%s: %s", c.Key(), ic.Recv, ic.Name, se.msg)
+				return
+			}
+			panic(r)
+		}
+	}()
+	if len(ic.Params) != len(fn.Params) || len(c.Params) != len(fn.Params) {
+		return nil, fmt.Errorf("refinement %s ⊑ %s.%s: parameter counts differ (iface %d, impl contract %d, function %d)", c.Key(), ic.Recv, ic.Name, len(ic.Params), len(c.Params), len(fn.Params))
+	}
+	props := append([]string{}, c.Props...)
+	for _, p := range ic.Props {
+		if !hasProp(props, p) {
+			props = append(props, p)
+		}
+	}
+	base := shortFuncName(fn) + "/refine:" + ic.Recv + "." + ic.Name
+	build := func(kind string) *Obligation {
+		e := newEnc(P)
+		fv := &FuncVC{P: P, e: e, name: base, oblCount: map[string]int{}, assumptions: map[string]bool{}, oblBlk: -1}
+		pre := &State{kind: sEntry, h: map[string]Term{}, fv: fv}
+		post := &State{kind: sHavoc, h: map[string]Term{}, parent: pre, havocAll: true, havoc: map[string]bool{}, site: "post", guard: "true", fv: fv}
+		var ps []Term
+		var bg []string
+		for i, p := range fn.Params {
+			t := e.constant("p_"+sanitizeIdx(i), e.sortOf(p.Type()))
+			ps = append(ps, t)
+			bg = append(bg, "(assert "+fv.wfVal(t, p.Type(), pre.get("alloc"), 0)+")")
+		}
+		sig := fn.Signature
+		var rs []Term
+		for i := 0; i < sig.Results().Len(); i++ {
+			rs = append(rs, e.constant("r_"+sanitizeIdx(i), e.sortOf(sig.Results().At(i).Type())))
+		}
+		mk := func(cc *FuncContract, st *State, boxed bool) *Env {
+			env := &Env{e: e, vars: map[string]TV{}, st: st, old: pre, pkg: cc.Pkg, alloc0: pre.get("alloc")}
+			for i, a := range cc.Params {
+				if i == 0 && boxed {
+					box, _, _ := e.boxFns(recvT)
+					env.vars[a] = TV{app(box, ps[0]), ifaceT}
+					continue
+				}
+				env.vars[a] = TV{ps[i], fn.Params[i].Type()}
+			}
+			for i, a := range cc.Results {
+				if i < len(rs) {
+					env.vars[a] = TV{rs[i], sig.Results().At(i).Type()}
+				}
+			}
+			return env
+		}
+		iPre, cPre := mk(ic, pre, true), mk(c, pre, false)
+		for _, r := range ic.Requires {
+			bg = append(bg, "(assert "+iPre.trBool(r.E)+")")
+		}
+		var goal Term
+		switch kind {
+		case "pre":
+			var gs []Term
+			for _, r := range c.Requires {
+				if !r.Free {
+					gs = append(gs, cPre.trBool(r.E))
+				}
+			}
+			var imods []modEntry
+			for _, m := range ic.Modifies {
+				imods = append(imods, fv.modTargets(iPre, m)...)
+			}
+			for _, m := range c.Modifies {
+				for _, cm := range fv.modTargets(cPre, m) {
+					var ds []Term
+					for _, im := range imods {
+						if im.heap == cm.heap {
+							ds = append(ds, eq(im.id, cm.id))
+						}
+					}
+					gs = append(gs, or(ds...))
+				}
+			}
+			goal = and(gs...)
+		case "post":
+			for _, r := range c.Requires {
+				bg = append(bg, "(assert "+cPre.trBool(r.E)+")")
+			}
+			cPost, iPost := mk(c, post, false), mk(ic, post, true)
+			for _, en := range c.Ensures {
+				bg = append(bg, "(assert "+cPost.trBool(en.E)+")")
+			}
+			var gs []Term
+			for _, en := range ic.Ensures {
+				gs = append(gs, iPost.trBool(en.E))
+			}
+			goal = and(gs...)
+		}
+		bg = append(bg, fv.bg...)
+		return &Obligation{Name: base + "/" + kind, Kind: "refine", Props: props, Func: shortFuncName(fn), Pos: fmt.Sprintf("%s:%d", c.File, c.Line),
+			Desc: fmt.Sprintf("contract of %s refines the interface contract %s.%s (%s)", shortFuncName(fn), ic.Recv, ic.Name, kind), Goal: goal,
+			lemma: &lemmaVC{script: e.script(bg, "(assert "+not(goal)+")", nil)}}
+	}
+	obls = append(obls, build("pre"), build("post"))
+	return obls, nil
+}
